@@ -37,6 +37,7 @@ def trees(values: list[dict]) -> list[Any]:
             out.append(("plain", R("VSer", v, ok[1], kid=R("VSer", v, ok[0]), kids=(R("VLeaf", {"v": 1}, ok[2]), R("VSer", v, ok[2])))))
             out.append(("shared", R("VSer", {"s": "root"}, ok[1], kid=shared, kids=(shared, R("VMany", {}, ok[2], items=(shared,))))))
     out.append(("plain", R("VMixed", {"v": 1}, "b", first=R("VLeaf", {"v": 1}), items=(R("VLeaf", {"v": 1}), R("VLeaf", {"v": 1}, "a")), one=R("VLeaf", {"v": 1}))))
+    out.append(("twins-reversed", R("VMany", items=(R("VLeaf", {"v": 1}), R("VReq", child=R("VLeaf", {"v": 1})), R("VLeaf", {"v": 1})))))
     return out
 
 
@@ -50,11 +51,22 @@ def make_harness(cases):
         kind, recipe = cases[cno]
         twins = e.pick(["none", "before", "after"], "twins_outside")
         keep: list[Any] = []
+        def construct():
+            if kind == "twins-reversed":
+                # content-identical twins inside one tree, stored in the reverse of their creation
+                # order: the first position holds the node with the collision-suffixed id
+                from models.zoo import VLeaf, VMany, VReq
+
+                first = VLeaf(v=1)
+                second = VLeaf(v=1)
+                return VMany(items=(second, VReq(child=first), second))
+            return build(recipe, {} if kind == "shared" else None)
+
         if twins == "before":
-            keep.append(build(recipe, {} if kind == "shared" else None))
-        root = build(recipe, {} if kind == "shared" else None)
+            keep.append(construct())
+        root = construct()
         if twins == "after":
-            keep.append(build(recipe, {} if kind == "shared" else None))
+            keep.append(construct())
         fmt = e.pick(FORMATS, "format")
         optimized = e.flag("source_optimized")
         liveness = e.pick(["all-alive", "none-alive", "one-subtree-alive"], "liveness")
@@ -151,6 +163,11 @@ def make_harness(cases):
             if ASTNode.get_any(m.id) is not m:
                 scenario.update(at=where)
                 e.fail("deserialized-node-not-registered", scenario=scenario)
+        # the registry stays well-formed: every key is the id of the node it maps to
+        for key, obj in list(NODE_REGISTRY.items()):
+            if obj.id != key:
+                scenario.update(registry_key=key, node_id=obj.id)
+                e.fail("registry-key-differs-from-node-id", scenario=scenario)
         for ks in share_classes.values():
             if len({id(new_nodes[k]) for k in ks}) != 1:
                 scenario.update(shared_positions=[str(snap[k]["path"]) for k in ks])
